@@ -1,7 +1,9 @@
 SPECIFICATION Spec
 CONSTANTS
   Dialers = {"d1", "d2"}
+  Readers = {"r1"}
   DialNested = FALSE
+  NestedRead = FALSE
   MaxOps = 3
 INVARIANT LockOK
 CHECK_DEADLOCK TRUE
